@@ -24,8 +24,6 @@ REFUSED = {
     "assignment to a parameter": "def f(d, x, o):\n    x = 'a'\n    return x\n",
     "aliased dictionary": "def f(d, x, o):\n    e = d\n    e['k'] = 'v'\n    return x\n",
     "store into a parameter dictionary": "def f(d, x, o):\n    d['k'] = 'v'\n    return x\n",
-    "read behind and": "def f(d, x, o):\n    if x == 'a' and d['k'] == 'b':\n        return 'y'\n    return x\n",
-    "read behind or": "def f(d, x, o):\n    if x == 'a' or d['k'] == 'b':\n        return 'y'\n    return x\n",
     "read in a conditional expression": "def f(d, x, o):\n    return d['k'] if x == 'a' else x\n",
     "chained comparison": "def f(d, x, o):\n    if x == 'a' == 'b':\n        return 'y'\n    return x\n",
     "falls off the end": "def f(d, x, o):\n    if x == 'a':\n        return 'y'\n",
@@ -99,6 +97,9 @@ REFUSED = {
     "flag loop whose flag is set before": "def f(d, x, o):\n    b = True\n    for w in x.split():\n        b = w == 'a'\n        if b:\n            break\n    else:\n        b = False\n    if b:\n        return 'y'\n    return x\n",
     "flag loop that reads the flag": "def f(d, x, o):\n    for w in x.split():\n        b = w == 'a'\n        b |= not b\n        if b:\n            break\n    else:\n        b = False\n    if b:\n        return 'y'\n    return x\n",
     "flag loop whose flag holds a list": "def f(d, x, o):\n    for w in x.split():\n        b = w.split()\n        if b:\n            break\n    else:\n        b = False\n    if b:\n        return 'y'\n    return x\n",
+    "read behind and in an elif": "def f(d, x, o):\n    if x == 'a':\n        return 'y'\n    elif x == 'q' and d['k'] == 'v':\n        return 'z'\n    return x\n",
+    "read behind or of a string": "def f(d, x, o):\n    y = x or d['k']\n    return y\n",
+    "read behind and in a comprehension": "def f(d, x, o):\n    l = [w for w in x.split() if w == 'a' and d['k'] == w]\n    if l:\n        return 'y'\n    return x\n",
     "loop updating two locals": "def f(d, x, o):\n    n = 0\n    m = 0\n    for w in x.split():\n        n += 1\n        m += 2\n    if n == m:\n        return 'y'\n    return x\n",
     "loop updating an undeclared local": "def f(d, x, o):\n    for w in x.split():\n        n = 1\n    return x\n",
     "search loop with an else branch": "def f(d, x, o):\n    for w in x.split():\n        if w == 'a':\n            return w\n        else:\n            return x\n    return x\n",
@@ -122,7 +123,6 @@ REFUSED = {
     "print": "def f(d, x, o):\n    if x == 'b':\n        raise ValueError(f'bad {x}')\n    print(x)\n    return x\n",
     "with of an undeclared context manager": "def f(d, x, o):\n    if x == 'b':\n        raise ValueError(f'bad {x}')\n    with open(x) as fh:\n        return x\n",
     "with whose value is used": "def f(d, x, o):\n    if x == 'b':\n        raise ValueError(f'bad {x}')\n    with lock(x) as l:\n        if l == 'a':\n            return 'y'\n    return x\n",
-    "raising atom behind and": "def f(d, x, o):\n    if x == 'b':\n        raise ValueError(f'bad {x}')\n    if x == 'a' and num(x) == 1:\n        return 'y'\n    return x\n",
     "raising atom in a conditional expression": "def f(d, x, o):\n    if x == 'b':\n        raise ValueError(f'bad {x}')\n    n = num(x) if x == 'a' else 1\n    if n == 1:\n        return 'y'\n    return x\n",
     "raising atom in a comprehension": "def f(d, x, o):\n    if x == 'b':\n        raise ValueError(f'bad {x}')\n    l = [w for w in x.split() if num(w) == 1]\n    if l:\n        return 'y'\n    return x\n",
     "call atom with a wrongly typed argument": "def f(d, x, o):\n    if x == 'b':\n        raise ValueError(f'bad {x}')\n    if num(1) == 1:\n        return 'y'\n    return x\n",
@@ -144,7 +144,7 @@ REFUSE_SPEC = pygen.Spec("f", [("d", "SDict"), ("x", "String"), ("o", "Option St
 REFUSE_WITH_SPEC = ("undeclared exception", "declared exception with another message", "exception message computed", "re-raise",
                     "raise from", "declared exception no longer raised", "log call with a computed argument",
                     "unknown call as a statement", "print", "with of an undeclared context manager", "with whose value is used",
-                    "raising atom behind and", "raising atom in a conditional expression", "raising atom in a comprehension",
+                    "raising atom in a conditional expression", "raising atom in a comprehension",
                     "call atom with a wrongly typed argument", "action used as a value", "raise in a loop")
 
 ACCEPTED_SRC = '''K = ("a", "b")
@@ -161,6 +161,11 @@ def f(d, x, o):
         y = "m" if o != "z" else x
     else:
         return e["t"]
+    if x == "q" and d["k"] == "v":
+        return "both"
+    w = o is None or d["z"] == "w" or x == "c"
+    if not w:
+        return "neither"
     if o is None:
         return y
     return d["z"]
@@ -176,6 +181,19 @@ ACCEPTED_LEAN = ['def f (d : SDict) (x : String) (o : Option String) : Except Er
                  '    y := (if (!(o == some "z")) then "m" else x)',
                  '  else',
                  '    return (← SDict.getItem e "t")',
+                 '  let mut pyTmp1 : Bool := (x == "q")',
+                 '  if pyTmp1 then',
+                 '    pyTmp1 := ((← SDict.getItem d "k") == "v")',
+                 '  if pyTmp1 then',
+                 '    return "both"',
+                 '  let mut pyTmp2 : Bool := (o == none)',
+                 '  if (!pyTmp2) then',
+                 '    pyTmp2 := ((← SDict.getItem d "z") == "w")',
+                 '  if (!pyTmp2) then',
+                 '    pyTmp2 := (x == "c")',
+                 '  let mut w : Bool := pyTmp2',
+                 '  if (!w) then',
+                 '    return "neither"',
                  '  if (o == none) then',
                  '    return y',
                  '  return (← SDict.getItem d "z")']
@@ -345,6 +363,10 @@ ACCEPTED3_SRC = '''def h(x, n):
             raise ValueError(f"bad {x}")
         if digest(x) == "":
             bump(100)
+        if n == 5:
+            twice = n + n
+            bump(twice)
+            cfg.hook = lambda _: None
         other(x, n)
     bump(1)
 '''
@@ -356,6 +378,7 @@ SPEC3 = pygen.Spec("h", [("x", "String"), ("n", "Int")], {"x": ("x", "str"), "n"
                           "digest(_1)": ("(digestOf {1})", "Option Nat", "pure", ["str"]),
                           "other(_1, _2)": ("otherM {1} {2}", "unit", "action", ["str", "int"])},
                    atoms={"''": ("(none : Option Nat)", "Option Nat")}, type_defaults={"Option Nat": "none"},
+                   stmts={"cfg.hook = lambda _: None": "bumpM 1000"},
                    raises=[("ValueError", "bad {}", "Err.valueError")], ignored_calls={"os.makedirs"},
                    transparent_with={"lock"},
                    prelude=["def peekM : StateT Int (Except Err) Int := get",
@@ -372,6 +395,10 @@ ACCEPTED3_LEAN = ['def h (x : String) (n : Int) : StateT Int (Except Err) (Unit)
                   '    throw Err.valueError',
                   '  if ((digestOf x) == (none : Option Nat)) then',
                   '    bumpM (100 : Int)',
+                  '  if (n == (5 : Int)) then',
+                  '    let mut twice : Int := (n + n)',
+                  '    bumpM twice',
+                  '    bumpM 1000',
                   '  otherM x n',
                   '  bumpM (1 : Int)',
                   '  return ()']
@@ -391,8 +418,14 @@ def differential3():
         if x == "other":
             raise KeyError(x)
         st[0] = st[0] * 2 + n
+    class Cfg:
+        def get_numeric(self, k, d):
+            return d
+
+        def __setattr__(self, k, v):                     # the pinned statement `cfg.hook = …` stands for `bumpM 1000`
+            st[0] += 1000
     ns = {"os": types.SimpleNamespace(makedirs=lambda *a, **k: None, path=types.SimpleNamespace(dirname=lambda p: p)),
-          "cfg": types.SimpleNamespace(get_numeric=lambda k, d: d), "lock": lambda *a: contextlib.nullcontext(),
+          "cfg": Cfg(), "lock": lambda *a: contextlib.nullcontext(),
           "peek": lambda: st[0], "small": lambda n: n < 2, "digest": lambda x: "" if x == "void" else "h" + x,
           "bump": lambda k: st.__setitem__(0, st[0] + k), "other": other}
     exec(ACCEPTED3_SRC, ns)
